@@ -32,3 +32,17 @@ package web
 //@   callpre os.Open resolved(arg0) && within(absRoot, arg0)
 //@   callpre os.ReadFile false
 //@   callpre http.ServeFile false
+
+// The constructor stores a symlink-resolved root; option functions only touch the other fields.
+//@ func NewStaticFileServer
+//@   dyncall modifies allfields(StaticFileServer.prefix), allfields(StaticFileServer.indexFile), allfields(StaticFileServer.maxAge), allfields(StaticFileServer.allowList)
+//@   ensures err == nil ==> result != nil && resolved(result.absRoot)
+//@   ensures err != nil ==> result == nil
+//@ func WithPrefix$1
+//@   modifies s.prefix
+//@ func WithIndex$1
+//@   modifies s.indexFile
+//@ func WithMaxAge$1
+//@   modifies s.maxAge
+//@ func WithDirectoryListing$1
+//@   modifies s.allowList
